@@ -134,14 +134,15 @@ def gen_item_C09(rng, idx, tier):
     case = gen.gen_compute_case(rng, maxpix=40 if tier == 'quick' else 80, force={'big': True})
     if case['dtype'] in ('uint32',):
         case['dtype'] = 'int32'
-    if rng.random() < 0.3:
+    exact_only = case['kind'] in ('decimal', 'bigint')    # values that must not be shifted / thresholds not derived
+    if rng.random() < 0.3 and not exact_only:
         case['k'] = [None if x is None else x - 30 for x in case['k']]   # negative values and heights
         if case['dtype'] in gen.INT_RANGE:
             lo, hi = gen.INT_RANGE[case['dtype']]
             if any(x is not None and not (lo <= x <= hi) for x in case['k']):
                 case['dtype'] = 'float64'
     ops = []
-    if rng.random() < 0.5:
+    if rng.random() < 0.5 and case['kind'] != 'decimal':
         if rng.random() < 0.7:
             case['mind'], case['minn'], case['crits'] = 0, 0, []
         ops.append(ph.gen_prune_op(rng, case, allow_crits=False))
